@@ -102,27 +102,45 @@ theorem Shape.setAdded {d : Doc} {p : Policy} {t : PyVal} {extra : Doc} (h : Sha
 theorem Shape.base (p : Policy) (t : PyVal) : Shape (encPolicy p t) p t [] :=
   ⟨(List.append_nil _).symm, fun _ h => by cases h⟩
 
-/-- what `__prepare_doc` returns has the shape, for the policy it was given -/
-theorem mongoDoc_shape (c : Compile) (p : Policy) (d : Doc) (h : mongoDoc c p = some d) :
-    ∃ extra, Shape d p (.int (typeOf p)) extra ∧ lookup kId extra = some p.uid := by
+/-- the added part of a freshly prepared document -/
+def freshExtra (p : Policy) (a s r : List PyVal) : Doc :=
+  [(kActionsC, .list a), (kSubjectsC, .list s), (kResourcesC, .list r), (kId, p.uid)]
+
+theorem kne : (kId = kActionsC) = False ∧ (kId = kSubjectsC) = False ∧ (kId = kResourcesC) = False ∧
+    (kSubjectsC = kActionsC) = False ∧ (kResourcesC = kActionsC) = False ∧ (kResourcesC = kSubjectsC) = False ∧
+    (kActionsC = kId) = False ∧ (kSubjectsC = kId) = False ∧ (kResourcesC = kId) = False ∧
+    (kActionsC = kSubjectsC) = False ∧ (kActionsC = kResourcesC) = False ∧ (kSubjectsC = kResourcesC) = False := by
+  refine ⟨?_, ?_, ?_, ?_, ?_, ?_, ?_, ?_, ?_, ?_, ?_, ?_⟩ <;> (simp only [eq_iff_iff, iff_false]; decide +kernel)
+
+/-- what `__prepare_doc` returns has the shape, for the policy it was given; its added part is `_id` alone for a
+rule-based policy and the three compiled arrays followed by `_id` for a string-based one -/
+theorem mongoDoc_shape' (c : Compile) (p : Policy) (d : Doc) (h : mongoDoc c p = some d) :
+    (strBased p = false ∧ Shape d p (.int (typeOf p)) [(kId, p.uid)]) ∨
+    (strBased p = true ∧ ∃ a s r, Shape d p (.int (typeOf p)) (freshExtra p a s r)) := by
   unfold mongoDoc at h
   simp only at h
+  obtain ⟨e1, e2, e3, f1, f2, f3, _⟩ := kne
   split at h
-  · split at h
+  · rename_i hsb
+    split at h
     · rename_i a s r _ _ _
       cases h
-      refine ⟨_, (((Shape.base p _).setAdded kActionsC (by simp [addedKeys]) _).setAdded kSubjectsC (by simp [addedKeys]) _
-        |>.setAdded kResourcesC (by simp [addedKeys]) _).setAdded kId (by simp [addedKeys]) _, ?_⟩
-      have e1 : (kId = kActionsC) = False := by simp only [eq_iff_iff, iff_false]; decide +kernel
-      have e2 : (kId = kSubjectsC) = False := by simp only [eq_iff_iff, iff_false]; decide +kernel
-      have e3 : (kId = kResourcesC) = False := by simp only [eq_iff_iff, iff_false]; decide +kernel
-      have f1 : (kSubjectsC = kActionsC) = False := by simp only [eq_iff_iff, iff_false]; decide +kernel
-      have f2 : (kResourcesC = kActionsC) = False := by simp only [eq_iff_iff, iff_false]; decide +kernel
-      have f3 : (kResourcesC = kSubjectsC) = False := by simp only [eq_iff_iff, iff_false]; decide +kernel
-      simp [setKey, lookup, e1, e2, e3, f1, f2, f3]
+      refine Or.inr ⟨hsb, a, s, r, ?_⟩
+      have := (((Shape.base p (.int (typeOf p))).setAdded kActionsC (by simp [addedKeys]) (.list a)).setAdded kSubjectsC
+        (by simp [addedKeys]) (.list s) |>.setAdded kResourcesC (by simp [addedKeys]) (.list r)).setAdded kId (by simp [addedKeys]) p.uid
+      simpa [setKey, freshExtra, e1, e2, e3, f1, f2, f3] using this
     · cases h
-  · cases h
-    exact ⟨_, (Shape.base p _).setAdded kId (by simp [addedKeys]) _, by simp [setKey, lookup]⟩
+  · rename_i hsb
+    cases h
+    refine Or.inl ⟨by simpa using hsb, ?_⟩
+    simpa [setKey] using (Shape.base p (.int (typeOf p))).setAdded kId (by simp [addedKeys]) p.uid
+
+theorem mongoDoc_shape (c : Compile) (p : Policy) (d : Doc) (h : mongoDoc c p = some d) :
+    ∃ extra, Shape d p (.int (typeOf p)) extra ∧ lookup kId extra = some p.uid := by
+  obtain ⟨e1, e2, e3, _⟩ := kne
+  rcases mongoDoc_shape' c p d h with ⟨_, hs⟩ | ⟨_, a, s, r, hs⟩
+  · exact ⟨_, hs, by simp [lookup]⟩
+  · exact ⟨_, hs, by simp [freshExtra, lookup, e1, e2, e3]⟩
 
 /-! ## `$set`: the stored document after an update -/
 
@@ -134,18 +152,21 @@ theorem setAll_encPolicy (p0 p : Policy) (t0 t : PyVal) (extra : Doc) :
 theorem setAll_append (a b d : Doc) : setAll (a ++ b) d = setAll b (setAll a d) := by
   simp [setAll, List.foldl_append]
 
+theorem setAll_cons (k : List Char) (v : PyVal) (rest d : Doc) : setAll ((k, v) :: rest) d = setAll rest (setKey k v d) := by
+  simp [setAll, List.foldl]
+
 theorem Shape.setAll_added {d : Doc} {p : Policy} {t : PyVal} {extra : Doc} (h : Shape d p t extra) :
-    ∀ (upd : Doc), (∀ kv ∈ upd, kv.1 ∈ addedKeys) → ∃ extra', Shape (setAll upd d) p t extra'
-  | [], _ => ⟨extra, h⟩
+    ∀ (upd : Doc), (∀ kv ∈ upd, kv.1 ∈ addedKeys) → Shape (setAll upd d) p t (setAll upd extra)
+  | [], _ => h
   | (k, v) :: rest, hk => by
     have h1 := h.setAdded k (hk (k, v) (List.mem_cons_self ..)) v
-    obtain ⟨e', he'⟩ := h1.setAll_added rest (fun kv hkv => hk kv (List.mem_cons_of_mem _ hkv))
-    exact ⟨e', by simpa [setAll, List.foldl] using he'⟩
+    rw [setAll_cons, setAll_cons]
+    exact h1.setAll_added rest (fun kv hkv => hk kv (List.mem_cons_of_mem _ hkv))
 
-/-- **the stored document after `update`** has the shape of the *new* policy (whatever compiled arrays the old
-one left behind) -/
+/-- **the stored document after `update`** has the shape of the *new* policy; what the old document had added stays,
+overwritten key by key by what the new one adds -/
 theorem update_shape {d0 d : Doc} {p0 p : Policy} {t0 t : PyVal} {x0 x : Doc}
-    (h0 : Shape d0 p0 t0 x0) (h : Shape d p t x) : ∃ x', Shape (setAll d d0) p t x' := by
+    (h0 : Shape d0 p0 t0 x0) (h : Shape d p t x) : Shape (setAll d d0) p t (setAll x x0) := by
   rw [h.eq, setAll_append, h0.eq, setAll_encPolicy]
   exact (Shape.mk rfl h0.keys : Shape (encPolicy p t ++ x0) p t x0).setAll_added x h.keys
 
